@@ -35,7 +35,7 @@ _PARSE_FULL = {m: dict(_PARSE_OPTS) for m in ("xdsl.utils.mlir_lexer", "xdsl.uti
 
 _IR_TEXT_FULL = dict(_PARSE_FULL)
 _IR_TEXT_FULL["xdsl.parser.core"] = dict(_PARSE_OPTS, calls=("dict", "defaultdict"))
-_IR_TEXT_FULL["xdsl.ir.core"] = {"shims": ("re",), "methods": _STR_METHODS}
+_IR_TEXT_FULL["xdsl.ir.core"] = {"shims": ("re", "io"), "methods": _STR_METHODS}
 
 _C07_FULL = {m: dict(o, methods=tuple(o.get("methods", ())) + ("get",), calls=tuple(o.get("calls", ())) + ("set",)) for m, o in _IR_TEXT_FULL.items()}
 _C07_FULL["xdsl.context"] = {"shims": (), "methods": ("get",)}
